@@ -262,3 +262,255 @@ func (sdt *SDT) FinalizeTOCSDT() {
 	}
 	sdt.Content.Elements = append(sdt.Content.Elements, bookmarkEnd)
 }
+
+// parseSDT 解析块级结构化文档标签（w:sdt）：属性按 SDTProperties 能表示的范围读取，
+// 内容中的段落、表格、嵌套的SDT、运行和书签使用常规解析函数读取，保存时原样写回
+func (d *Document) parseSDT(decoder *xml.Decoder, startElement xml.StartElement) (*SDT, error) {
+	sdt := &SDT{}
+
+	for {
+		token, err := decoder.Token()
+		if err != nil {
+			return nil, WrapError("parse_sdt", err)
+		}
+
+		switch t := token.(type) {
+		case xml.StartElement:
+			switch t.Name.Local {
+			case "sdtPr":
+				properties, err := d.parseSDTProperties(decoder)
+				if err != nil {
+					return nil, err
+				}
+				sdt.Properties = properties
+			case "sdtEndPr":
+				runPr, err := d.parseSDTRunProperties(decoder, t.Name.Local)
+				if err != nil {
+					return nil, err
+				}
+				sdt.EndPr = &SDTEndPr{RunPr: runPr}
+			case "sdtContent":
+				content, err := d.parseSDTContent(decoder)
+				if err != nil {
+					return nil, err
+				}
+				sdt.Content = content
+			default:
+				if err := d.skipElement(decoder, t.Name.Local); err != nil {
+					return nil, err
+				}
+			}
+		case xml.EndElement:
+			if t.Name.Local == "sdt" {
+				// 本库中使用SDT的代码假定 Content 不为 nil
+				if sdt.Content == nil {
+					sdt.Content = &SDTContent{Elements: []interface{}{}}
+				}
+				return sdt, nil
+			}
+		}
+	}
+}
+
+// parseSDTRunProperties 读取 endName 元素（w:sdtEndPr）中的 w:rPr，读到该元素结束为止
+func (d *Document) parseSDTRunProperties(decoder *xml.Decoder, endName string) (*RunProperties, error) {
+	var runPr *RunProperties
+
+	for {
+		token, err := decoder.Token()
+		if err != nil {
+			return nil, WrapError("parse_sdt_run_properties", err)
+		}
+
+		switch t := token.(type) {
+		case xml.StartElement:
+			if t.Name.Local == "rPr" {
+				run := &Run{}
+				if err := d.parseRunProperties(decoder, run); err != nil {
+					return nil, err
+				}
+				runPr = run.Properties
+			} else if err := d.skipElement(decoder, t.Name.Local); err != nil {
+				return nil, err
+			}
+		case xml.EndElement:
+			if t.Name.Local == endName {
+				return runPr, nil
+			}
+		}
+	}
+}
+
+// parseSDTProperties 解析 w:sdtPr
+func (d *Document) parseSDTProperties(decoder *xml.Decoder) (*SDTProperties, error) {
+	properties := &SDTProperties{}
+
+	for {
+		token, err := decoder.Token()
+		if err != nil {
+			return nil, WrapError("parse_sdt_properties", err)
+		}
+
+		switch t := token.(type) {
+		case xml.StartElement:
+			switch t.Name.Local {
+			case "rPr":
+				run := &Run{}
+				if err := d.parseRunProperties(decoder, run); err != nil {
+					return nil, err
+				}
+				properties.RunPr = run.Properties
+			case "id":
+				properties.ID = &SDTID{Val: getAttributeValue(t.Attr, "val")}
+				if err := d.skipElement(decoder, t.Name.Local); err != nil {
+					return nil, err
+				}
+			case "color":
+				properties.Color = &SDTColor{Val: getAttributeValue(t.Attr, "val")}
+				if err := d.skipElement(decoder, t.Name.Local); err != nil {
+					return nil, err
+				}
+			case "docPartObj":
+				docPartObj, err := d.parseDocPartObj(decoder)
+				if err != nil {
+					return nil, err
+				}
+				properties.DocPartObj = docPartObj
+			case "placeholder":
+				placeholder, err := d.parseSDTPlaceholder(decoder)
+				if err != nil {
+					return nil, err
+				}
+				properties.Placeholder = placeholder
+			default:
+				if err := d.skipElement(decoder, t.Name.Local); err != nil {
+					return nil, err
+				}
+			}
+		case xml.EndElement:
+			if t.Name.Local == "sdtPr" {
+				return properties, nil
+			}
+		}
+	}
+}
+
+// parseDocPartObj 解析 w:docPartObj
+func (d *Document) parseDocPartObj(decoder *xml.Decoder) (*DocPartObj, error) {
+	docPartObj := &DocPartObj{}
+
+	for {
+		token, err := decoder.Token()
+		if err != nil {
+			return nil, WrapError("parse_doc_part_obj", err)
+		}
+
+		switch t := token.(type) {
+		case xml.StartElement:
+			switch t.Name.Local {
+			case "docPartGallery":
+				docPartObj.DocPartGallery = &DocPartGallery{Val: getAttributeValue(t.Attr, "val")}
+			case "docPartUnique":
+				docPartObj.DocPartUnique = &DocPartUnique{}
+			}
+			if err := d.skipElement(decoder, t.Name.Local); err != nil {
+				return nil, err
+			}
+		case xml.EndElement:
+			if t.Name.Local == "docPartObj" {
+				return docPartObj, nil
+			}
+		}
+	}
+}
+
+// parseSDTPlaceholder 解析 w:placeholder
+func (d *Document) parseSDTPlaceholder(decoder *xml.Decoder) (*SDTPlaceholder, error) {
+	placeholder := &SDTPlaceholder{}
+
+	for {
+		token, err := decoder.Token()
+		if err != nil {
+			return nil, WrapError("parse_sdt_placeholder", err)
+		}
+
+		switch t := token.(type) {
+		case xml.StartElement:
+			if t.Name.Local == "docPart" {
+				placeholder.DocPart = &DocPart{Val: getAttributeValue(t.Attr, "val")}
+			}
+			if err := d.skipElement(decoder, t.Name.Local); err != nil {
+				return nil, err
+			}
+		case xml.EndElement:
+			if t.Name.Local == "placeholder" {
+				return placeholder, nil
+			}
+		}
+	}
+}
+
+// parseSDTContent 解析 w:sdtContent，元素的类型与本库生成SDT内容时使用的类型一致
+func (d *Document) parseSDTContent(decoder *xml.Decoder) (*SDTContent, error) {
+	content := &SDTContent{Elements: []interface{}{}}
+
+	for {
+		token, err := decoder.Token()
+		if err != nil {
+			return nil, WrapError("parse_sdt_content", err)
+		}
+
+		switch t := token.(type) {
+		case xml.StartElement:
+			switch t.Name.Local {
+			case "p":
+				paragraph, err := d.parseParagraph(decoder, t)
+				if err != nil {
+					return nil, err
+				}
+				content.Elements = append(content.Elements, paragraph)
+			case "tbl":
+				table, err := d.parseTable(decoder, t)
+				if err != nil {
+					return nil, err
+				}
+				content.Elements = append(content.Elements, table)
+			case "sdt":
+				nested, err := d.parseSDT(decoder, t)
+				if err != nil {
+					return nil, err
+				}
+				content.Elements = append(content.Elements, nested)
+			case "r":
+				run, err := d.parseRun(decoder, t)
+				if err != nil {
+					return nil, err
+				}
+				content.Elements = append(content.Elements, *run)
+			case "bookmarkStart":
+				bookmark := &BookmarkStart{
+					ID:   getAttributeValue(t.Attr, "id"),
+					Name: getAttributeValue(t.Attr, "name"),
+				}
+				if err := d.skipElement(decoder, t.Name.Local); err != nil {
+					return nil, err
+				}
+				content.Elements = append(content.Elements, bookmark)
+			case "bookmarkEnd":
+				bookmark := &BookmarkEnd{ID: getAttributeValue(t.Attr, "id")}
+				if err := d.skipElement(decoder, t.Name.Local); err != nil {
+					return nil, err
+				}
+				content.Elements = append(content.Elements, bookmark)
+			default:
+				if err := d.skipElement(decoder, t.Name.Local); err != nil {
+					return nil, err
+				}
+			}
+		case xml.EndElement:
+			if t.Name.Local == "sdtContent" {
+				return content, nil
+			}
+		}
+	}
+}
